@@ -45,6 +45,53 @@ def budget(tier: str) -> Dict[str, Any]:
     return {"shards": 16, "examples": 6000, "machine_examples": 1800, "machine_steps": 14}
 
 
+# ----------------------------------------------------------------------------------------------- sheet-like numbering
+# In a real spreadsheet the three tables are stacked (IN, OUT, INTRA), so adding one acquisition pushes every OUT and INTRA
+# row one line down.  Results must not depend on that: with `sheetlike`, every run uses row numbers laid out as a fresh sheet
+# would have them (order-isomorphic to the generated ones inside each table) and the dump is mapped back to the generated
+# ids before any comparison.  `first_row` is drawn near 9|10 and 99|100 as well, where a textual ordering of ids flips.
+
+ROW_KEYS = {"fractions": ("ev", "lot"), "taxable": ("row",), "ins": ("row",), "outs": ("row",), "intras": ("row",)}
+
+
+def sheet_numbering(rows: List[Dict[str, Any]], first_row: int) -> Dict[int, int]:
+    """generated row id -> row number in a sheet holding exactly these rows (artificial negative ids are kept)."""
+    mapping: Dict[int, int] = {}
+    line = first_row
+    for table in ("in", "out", "intra"):
+        block = sorted((r["row"] for r in rows if r["table"] == table and r["row"] >= 0))
+        for old in block:
+            mapping[old] = line
+            line += 1
+        if block:
+            line += 4  # TABLE END, blank line, table keyword, header
+    return mapping
+
+
+def run_numbered(case: Dict[str, Any], rows: List[Dict[str, Any]], first_row: Optional[int], **kw: Any) -> Dict[str, Any]:
+    if first_row is None:
+        return drive_api.run_case(case, rows=rows, **kw)
+    mapping = sheet_numbering(rows, first_row)
+    renumbered = []
+    for r in rows:
+        new = dict(r)
+        new["row"] = mapping.get(r["row"], r["row"])
+        if "artificial_for" in new:
+            new["artificial_for"] = mapping.get(new["artificial_for"], new["artificial_for"])
+        renumbered.append(new)
+    renumbered.sort(key=lambda r: (r["row"] < 0, r["row"] if r["row"] >= 0 else -r["row"]))
+    dump = drive_api.run_case(case, rows=renumbered, **kw)
+    if not dump["ok"]:
+        return dump
+    back = {new: old for old, new in mapping.items()}
+    for name, keys in ROW_KEYS.items():
+        for entry in dump[name]:
+            for key in keys:
+                if entry[key] is not None:
+                    entry[key] = back.get(entry[key], entry[key])
+    return dump
+
+
 # ----------------------------------------------------------------------------------------------- shared comparison
 
 
@@ -102,7 +149,7 @@ def replay_growth(case: Dict[str, Any]) -> Outcome:
         new_rows = rows[done : done + n]
         done += n
         current = rows[:done]
-        dump = drive_api.run_case(case, rows=current)
+        dump = run_numbered(case, current, case.get("first_row"))
         if not dump["ok"]:
             out.fail("valid_history_rejected", f"after {done} rows: {dump['error_type']}: {dump['error'][:300]}")
             return out
@@ -162,8 +209,10 @@ def machine(tier: str, record: Callable[[Any, Outcome], None], raise_or_known: C
             start_year=st.integers(2015, 2019),
             start_sec=st.integers(0, 365 * 86400 - 1),
             off=st.sampled_from(gen.OFFSETS_MIN),
+            first_row=st.sampled_from([None, None, 3, 4, 5, 6, 7, 8, 9, 93, 96, 98]),
         )
-        def setup(self, method: str, second: str, break_year: int, multi: bool, start_year: int, start_sec: int, off: int) -> None:
+        def setup(self, method: str, second: str, break_year: int, multi: bool, start_year: int, start_sec: int, off: int, first_row: Optional[int]) -> None:
+            self.case["first_row"] = first_row
             self.case["schedule"] = {"1970": method, str(break_year): second} if multi else {"1970": method}
             self.now_us = gen._year_start_us(start_year) + start_sec * gen.US
             self.off = off
@@ -265,7 +314,7 @@ def machine(tier: str, record: Callable[[Any, Outcome], None], raise_or_known: C
                 return
             new_rows, self.pending = self.pending, []
             self.steps.append(len(new_rows))
-            dump = drive_api.run_case(self.case, rows=self.rows)
+            dump = run_numbered(self.case, self.rows, self.case.get("first_row"))
             snapshot_case = dict(self.case, rows=[dict(r) for r in self.rows], steps=list(self.steps))
             if not dump["ok"]:
                 raise_or_known(snapshot_case, "valid_history_rejected", f"{dump['error_type']}: {dump['error'][:300]}")
@@ -281,6 +330,8 @@ def machine(tier: str, record: Callable[[Any, Outcome], None], raise_or_known: C
                 final_case = dict(self.case, rows=[dict(r) for r in self.rows], steps=list(self.steps))
                 classify_growth(out, final_case)
                 out.classes.add("form_a_growing_history")
+                if self.case.get("first_row") is not None:
+                    out.classes.add("sheetlike_row_numbers")
                 out.metrics["cut_points_checked"] = max(0, len(self.snapshots) - 1)
                 record(final_case, out)
 
@@ -296,6 +347,7 @@ def strategy_case(draw: Any) -> Dict[str, Any]:
     txs = model.make_txs(case["rows"])
     case["to"] = draw(gen.window_date(txs))
     case["form"] = "b"
+    case["first_row"] = draw(st.sampled_from([None, None, 3, 4, 5, 6, 7, 8, 9, 93, 96, 98]))
     return case
 
 
@@ -325,8 +377,10 @@ def evaluate(case: Dict[str, Any]) -> Outcome:
     if cut_after_disposal:
         out.nontrivial = True
         out.classes.add("to_date_cuts_after_disposal")
-    full = drive_api.run_case(case, from_date="", to_date=case["to"])
-    trunc = drive_api.run_case(case, rows=kept, from_date="", to_date="")
+    if case.get("first_row") is not None:
+        out.classes.add("sheetlike_row_numbers")
+    full = run_numbered(case, case["rows"], case.get("first_row"), from_date="", to_date=case["to"])
+    trunc = run_numbered(case, kept, case.get("first_row"), from_date="", to_date="")
     if full["ok"] != trunc["ok"]:
         out.fail("to_date_vs_truncation_verdict", f"run with to-date {case['to']}: ok={full['ok']} ({full.get('error', '')[:150]}); run on truncated history: ok={trunc['ok']} ({trunc.get('error', '')[:150]})")
         return out
